@@ -79,9 +79,18 @@ func init() {
 			if c.Thorough() {
 				t.Repeat = 20
 			}
-			switch r.Intn(3) {
+			switch r.Intn(4) {
 			case 0:
 				t.E = *base
+			case 1:
+				// range aggregation with its own grouping under an outer aggregation: the label sets of the
+				// inner series must stay what they are at every step
+				for i := range t.Recs {
+					t.Recs[i].Attrs = append(t.Recs[i].Attrs, [2]string{"v", fmt.Sprint(1 + i%5)})
+				}
+				inner := &MExpr{Kind: "range", Op: pick(r, []string{"max_over_time", "min_over_time", "first_over_time"}), RangeS: pick(r, []int64{1, 2}), Unwrap: &MUnwrap{Label: "v"},
+					Group: &MGroup{Without: true, Labels: append(distinctStrings(r, []string{"a", "ab", "c", "d"}, 1), "v")}}
+				t.E = MExpr{Kind: "vagg", Op: pick(r, []string{"sum", "count", "max"}), Group: &MGroup{Without: true, Labels: distinctStrings(r, []string{"a", "ab", "c", "bc", "d"}, 1)}, A: inner}
 			default:
 				g := &MGroup{Without: r.Intn(2) == 0, Labels: distinctStrings(r, []string{"a", "ab", "c", "bc", "d"}, 1+r.Intn(2))}
 				t.E = MExpr{Kind: "vagg", Op: pick(r, []string{"sum", "count"}), Group: g, A: base}
@@ -108,8 +117,13 @@ func init() {
 		inner := func(r *rand.Rand) func() *MExpr {
 			return func() *MExpr {
 				e := genRangeExpr(r, true)
-				if r.Intn(2) == 0 {
+				switch r.Intn(4) {
+				case 0:
 					e.Op, e.Unwrap = "sum_over_time", &MUnwrap{Label: "v"}
+				case 1:
+					// a range aggregation with its own grouping clause under the vector aggregation
+					e.Op, e.Unwrap = pick(r, []string{"max_over_time", "min_over_time", "avg_over_time", "first_over_time"}), &MUnwrap{Label: "v"}
+					e.Group = &MGroup{Without: r.Intn(3) != 0, Labels: distinctStrings(r, append(mLabels, "v"), 1+r.Intn(2))}
 				}
 				return e
 			}
